@@ -6,7 +6,7 @@
    `cg_solve B g Δ P` is the model of SteihaugCG::solve (Steihaug.v), the same definition that is run at
    binary64 against the C++ implementation (Corr_C11.v). *)
 From Coq Require Import Reals List ZArith Lra Floats.
-From Alpaqa Require Import Num NumR NumF Vec Steihaug SteihaugProofs.
+From Alpaqa Require Import Num NumR NumF Vec Steihaug SteihaugProofs SteihaugGenLib SteihaugGen SteihaugGenEq.
 Import ListNotations.
 Local Open Scope R_scope.
 
@@ -182,4 +182,55 @@ Proof.
   split; [exact Hg|]. split.
   - apply (P_invariant_init 2 _ [1; 2] 1 example_op_sym_linear (eq_refl 2%nat)); [lra | exact Hg].
   - cbn. lra.
+Qed.
+
+(* ---------------------------------------------------------------------------------------------------------------------------
+   (10) The same guarantees for the code REGENERATED from steihaugcg.hpp on every run (coq/gen/SteihaugGen.v, translator
+        translate/gen_steihaug.py): g_solve = initialisation + zero-gradient return + tolerance formula + `while (true)` with
+        the generated loop body g_solve_while_step (negative-curvature branch, NaN exit, boundary branch, interior update,
+        termination tests), the generated root formula g_bnd and the lambda eval.  They follow from the piece-by-piece
+        equalities of SteihaugGenEq.v (g_bnd_eq, g_solve_eval_eq, g_tolerance_eq, g_solve_while_step_eq, g_loop_eq,
+        g_solve_eq), so a source change that changes a generated piece breaks the equality named after it, and with it these
+        obligations.  `tm` is the number passed as params.tol_max (`tolmax_repr`: the model's value, or for the model's +inf any
+        number not below the other argument of the outer fmin); the work vectors and the incoming step have n rows. *)
+Theorem C11_gen_solve_is_feasible_and_beats_cauchy : forall n B g Δ (P : cg_params R) tm z0 r0 d0 Bd0 we0 s0,
+  sym_linear_op n B -> length g = n -> 0 < Δ -> tolmax_repr g P tm -> length z0 = n -> length s0 = n ->
+  exists val s,
+    g_solve B (tol_scale P) (tol_scale_root P) tm (max_iter P) (cg_fuel P) z0 r0 d0 Bd0 we0 g Δ s0 = Some (val, s) /\
+    val = res_val (cg_solve B g Δ P) /\ s = res_step (cg_solve B g Δ P) /\
+    vnorm2 s <= Δ /\
+    val = vdot g s + / 2 * vdot s (B s) /\
+    val <= 0 /\
+    val <= model B g (cauchy_point B g Δ).
+Proof. exact gen_solve_guarantees. Qed.
+Print Assumptions C11_gen_solve_is_feasible_and_beats_cauchy.
+
+Theorem C11_gen_loop_body_keeps_invariant : forall n B g Δ (P : cg_params R) tm tol i st Bd s nxt,
+  sym_linear_op n B -> length g = n -> 0 < Δ -> cg_invariant n B g Δ st ->
+  g_solve_while_step B (tol_scale P) (tol_scale_root P) tm (max_iter P) g Δ tol (max_iter P) (st_z st) (st_r st) (st_d st) Bd s (st_rsq st) i
+    = inr nxt ->
+  let '(z', r', d', _, _, rsq', i') := nxt in
+  let st' := {| st_z := z'; st_r := r'; st_d := d'; st_rsq := rsq' |} in
+  i' = Z.succ i /\ cg_invariant n B g Δ st' /\ model B g z' <= model B g (st_z st).
+Proof. exact gen_step_invariant. Qed.
+Print Assumptions C11_gen_loop_body_keeps_invariant.
+
+Theorem C11_gen_boundary_roots_are_model_roots : forall B (P : cg_params R) tm z d Δ,
+  g_bnd B (tol_scale P) (tol_scale_root P) tm (max_iter P) z d Δ = bnd_intersections z d Δ.
+Proof. exact gen_bnd_is_model. Qed.
+Print Assumptions C11_gen_boundary_roots_are_model_roots.
+
+(* non-vacuity for the generated code: the indefinite operator and gradient of C11_nonvacuous, Δ = 1, tol_max = 10:
+   all hypotheses hold and the generated solve returns a feasible step with a non-positive model value *)
+Example C11_gen_nonvacuous :
+  let B := mat_vec [[2; 1]; [1; -3]] in
+  let P := {| tol_scale := 1; tol_scale_root := 1 / 2; tol_max := Some 10; max_iter := 2 |} in
+  exists val s, g_solve B 1 (1 / 2) 10 2%Z (cg_fuel P) [0; 0] [0; 0] [0; 0] [0; 0] [0; 0] [1; 2] 1 [0; 0] = Some (val, s) /\
+                vnorm2 s <= 1 /\ val <= 0.
+Proof.
+  cbn zeta.
+  destruct (C11_gen_solve_is_feasible_and_beats_cauchy 2 _ [1; 2] 1
+              {| tol_scale := 1; tol_scale_root := 1 / 2; tol_max := Some 10; max_iter := 2 |} 10 [0; 0] [0; 0] [0; 0] [0; 0] [0; 0] [0; 0]
+              example_op_sym_linear eq_refl ltac:(lra) eq_refl eq_refl eq_refl) as (val & s & H1 & _ & _ & H2 & _ & H3 & _).
+  exists val, s. cbn [tol_scale tol_scale_root max_iter] in H1. auto.
 Qed.
